@@ -886,6 +886,31 @@ theorem C02_mirror_partial {s : Schema} {rank trank : String → Nat} (wf : WF s
     · exact Or.inl h
     · exact Or.inr (h td htd)
 
+/-- The subtype list of an entity descriptor, exactly (order and multiplicity, which `Spec.MirrorEntity.subs` leaves open): the
+    entities in emission order, each as often as it names the entity in its SUBTYPE OF list — once, for a schema that lists no
+    supertype twice. -/
+theorem C02_mirror_subtypes_exact {s : Schema} {rank : String → Nat} (wf : WF s rank)
+    (hn : (s.entities.map (·.name)).Nodup) (roots : List String)
+    (hr : ∀ n, n ∈ roots ↔ n ∈ s.entities.map (·.name)) :
+    ∀ e ∈ s.entities, ∃ d ∈ (dictOf s roots).entities, d.name = e.name ∧
+      d.subs = ((emissionOrder s roots).filterMap s.findE).flatMap
+        (fun e' => e'.supers.filterMap (fun sup => if e.name == sup then some e'.name else none)) := by
+  obtain ⟨hperm, _⟩ := C02_emission_order wf hn roots hr
+  have hroots : ∀ n ∈ roots, (s.findE n).isSome := by
+    intro n hn'
+    obtain ⟨e, he, rfl⟩ := List.mem_map.mp ((hr n).mp hn')
+    simp [findE_self hn he]
+  obtain ⟨hc, _, hnd, _⟩ := emissionOrder_facts wf roots hroots
+  generalize hord : emissionOrder s roots = order at hperm hc hnd
+  have hents : (dictOf s roots).entities =
+      (order.filterMap s.findE).map (finalOf (order.filterMap s.findE)) := by
+    unfold dictOf; simp only [hord]; exact entities_eq s order
+  intro e he
+  have hee : e ∈ order.filterMap s.findE :=
+    List.mem_filterMap.mpr ⟨e.name, hperm.mem_iff.mpr (List.mem_map_of_mem he), findE_self hn he⟩
+  exact ⟨finalOf (order.filterMap s.findE) e, by rw [hents]; exact List.mem_map_of_mem hee,
+    by simp [finalOf, applyAll_name, blank], final_subs _ e⟩
+
 /-- `TypeDescriptor::NonRefTypeDescriptor()` follows REFERENCE_TYPE links without an iteration bound (regenerated from
     typeDescriptor.cc; with a bound — seeded change C02-d2: 8 links — this does not elaborate). -/
 theorem C02_nonref_loop_unbounded : nonRefLinkBound = none := rfl
